@@ -281,7 +281,7 @@ impl Property for P {
     }
     fn cases(tier: Tier) -> u64 {
         match tier {
-            Tier::Quick => 4_000,
+            Tier::Quick => 15_000,
             Tier::Thorough => 150_000,
         }
     }
